@@ -192,6 +192,24 @@ class C04(Property):
                 h = hexs("\n".join(ls).encode())
                 cases.append(Case("lines " + h, corr=False, tags=("long-line",)))
                 cases.append(Case("enc " + h, prop=False, tags=("enc-long-line",)))
+        # text values that hold characters a reader may treat as line structure - a carriage return not followed by a line feed, NEL,
+        # line / paragraph separators, form feed, vertical tab, a NUL - handed in as UTF-16 and UTF-8: the decoded value is written
+        # verbatim, and the text the encoder writes is read back by the UTF-8 reader (seed C04-m: a lone CR ends a line in one reader only)
+        for _ in range(60 if tier == "quick" else 2000):
+            ch = rng.choice(["\r", "\r", "\r", "\u0085", "\u2028", "\u2029", "\x0c", "\x0b", "\x00", "\r\r"])
+            inj = rng.choice(["[HitObjects]", "[General]", "Title:injected", "osu file format v3", "0,0,0,1,0", "// c", "x"])
+            key = rng.choice(["Title", "TitleUnicode", "Artist", "Creator", "Version", "Source", "Tags"])
+            ls = ["osu file format v14", "", "[General]", f"AudioFilename: a{ch}{inj}.mp3" if rng.random() < 0.3 else "AudioFilename: a.mp3", "Mode: 0", "",
+                  "[Metadata]", f"{key}:Night of{ch}{inj}", "Creator:c" if key != "Creator" else "Artist:a", "BeatmapID:5", "",
+                  "[Events]", f'0,0,"bg{ch}{inj}.png",0,0' if rng.random() < 0.3 else '0,0,"bg.png",0,0', "",
+                  "[TimingPoints]", "0,500,4,2,0,60,1,0", "", "[Colours]", f" name{ch}{inj} : 1,2,3" if rng.random() < 0.3 else "Combo1 : 1,2,3", "",
+                  "[HitObjects]", f"64,64,500,1,0,0:0:0:0:hit{ch}{inj}.wav" if rng.random() < 0.3 else "64,64,500,1,0,0:0:0:0:", ""]
+            text = rng.choice(["\n", "\r\n"]).join(ls)
+            enc = rng.choice(["utf-16-le", "utf-16-be", "utf-8"])
+            data = {"utf-16-le": b"\xff\xfe", "utf-16-be": b"\xfe\xff", "utf-8": b""}[enc] + text.encode(enc)
+            h = hexs(data)
+            cases.append(Case("lines " + h, corr=False, tags=("line-structure-characters-in-values", enc)))
+            cases.append(Case("enc " + h, prop=False, tags=("enc-line-structure-characters-in-values",)))
         for f, d in (small_bundled() if tier == "quick" else bundled()):
             cases.append(Case("lines " + hexs(d), corr=False, tags=("bundled",)))
             cases.append(Case("enc " + hexs(d), prop=False, tags=("bundled",)))
